@@ -4,7 +4,9 @@ Implementation side: generated sets of real modes (game and non-game, with/witho
 devices - counter, timer, shot - and config players - event_player, variable_player, light_player) on a real machine;
 start/stop requests direct, by event, by queue event, from handlers of the modes' own lifecycle events (optionally holding
 the starting/stopping queue event open for some ticks), by ball end (game modes); user code of the mode registering
-handlers / switch handlers / delays on the mode at any moment of its life.
+handlers / switch handlers / delays on the mode at any moment of its life; mode devices with delayed control events (dict
+form) whose events are posted shortly before the mode stops - every DelayManager of the machine is tracked, the pending
+call is an owned delay of the mode in the model (adddl / firedl).
 Every call of Mode.start/_started/_mode_started_callback/stop/_stopped/_mode_stopped_callback that actually happened is
 logged (class-level wrappers installed from this process) and replayed as the schedule of the Lean model
 (MpfVerif.Model.Mode), which answers not-enabled when that step could not happen then; posted lifecycle events, flags,
@@ -23,13 +25,15 @@ LEAN_MODULES = ["MpfVerif.Props.C07"]
 PROPS_FILE = "MpfVerif/Props/C07.lean"
 GEN = []
 MANIFEST = {
-  "text": "Proof on a Lean model of Mode.start/_started/_mode_started_callback/stop/_stopped/_mode_stopped_callback, ModeController.set_mode_state and the three registries (event handlers, switch handlers, delays; every entry tagged with its owning mode and the mechanism that removes it) with every scheduler choice (which pending callback runs next, what user code registers when) an input: for ALL op sequences the lifecycle events posted for a mode form a prefix of (will_start starting started will_stop stopping stopped)*, active_modes is duplicate-free, contains exactly the modes whose active flag is set and is strictly sorted by (priority, name) descending, and whenever a mode's stop completes (its cleanup runs, in _mode_stopped_callback or at the beginning of a restart requested from a mode_<n>_stopped handler) no entry of the stopped run owned by it is left in any registry (a restarted mode owns exactly its fresh footprint and the late callback of the previous stop touches nothing) while entries of other modes are untouched, hence any number of complete cycles restores the registries; accepted starts/stops become pending steps that are enabled. The model is tied to mpf/core/mode.py and mode_controller.py on every check: generated mode sets run on a real machine, the observed call schedule is replayed on the Lean driver (not-enabled = disagreement), posted events, flags, active_modes and canonical registry dumps are compared at every quiescent point; an independent oracle checks the three clauses of the property on the real machine.",
+  "text": "Proof on a Lean model of Mode.start/_started/_mode_started_callback/stop/_stopped/_mode_stopped_callback, ModeController.set_mode_state and the three registries (event handlers, switch handlers, delays incl. pending delayed control-event calls of mode devices; every entry tagged with its owning mode and the mechanism that removes it) with every scheduler choice (which pending callback runs next, what user code registers when) an input: for ALL op sequences the lifecycle events posted for a mode form a prefix of (will_start starting started will_stop stopping stopped)*, active_modes is duplicate-free, contains exactly the modes whose active flag is set and is strictly sorted by (priority, name) descending, and whenever a mode's stop completes (its cleanup runs, in _mode_stopped_callback or at the beginning of a restart requested from a mode_<n>_stopped handler) no entry of the stopped run owned by it is left in any registry (a restarted mode owns exactly its fresh footprint and the late callback of the previous stop touches nothing) while entries of other modes are untouched, hence any number of complete cycles restores the registries; accepted starts/stops become pending steps that are enabled. The model is tied to mpf/core/mode.py and mode_controller.py on every check: generated mode sets run on a real machine, the observed call schedule is replayed on the Lean driver (not-enabled = disagreement), posted events, flags, active_modes and canonical registry dumps are compared at every quiescent point; an independent oracle checks the three clauses of the property on the real machine.",
   "note": "Trusted: Lean kernel + {propext, Classical.choice, Quot.sound}; the hand-written model Model/Mode.lean (validated only by the differential runs); the event bus (C01/C02) is not re-modelled: which callback runs when is an input. Mode footprints (which handlers a configuration registers in start / on started and which mechanism removes them) are calibrated on the real machine, not derived. Not claimed: a stop requested from a mode_<n>_started handler runs mode_stop before mode_start when mode_<n>_stopping has no handlers (custom mode code only).",
   "technique": "Lean 4 theorems (invariants by induction over op sequences) on a hand model + schedule-replaying differential correspondence with real modes + independent oracle",
   "translated": False,
  }
 RULE = ("cases: 1-3 modes drawn from a pool (priorities with ties, game / non-game, use_wait_queue, flavours plain / devices "
-        "(counter, timer, event_player) / game devices (shot, variable_player, light_player, counter)), 0-4 hooks on "
+        "(counter, timer, event_player) / game devices (shot, variable_player, light_player, counter) / devices with DELAYED "
+        "control events in dict form (counter, accrual, shot: enable/disable/reset/restart/advance_events: {ev: 125ms..1s}, "
+        "posted at grid instants 0-3 ticks before a stop / stop event / ball end), 0-4 hooks on "
         "lifecycle events (start/stop of any mode, delay / handler / switch handler registered on the mode, wait+clear "
         "later on queue events, priority above or below the mode's own handlers), 3-14 top-level ops (start, stop, start/"
         "stop event, start by queue event, user registrations, advance, ball end), 1-5 cycles. non-trivial = at least one "
@@ -115,6 +119,44 @@ counters:
     count_complete_value: 3
     logic_block_timeout: 2s
 """,
+    "dly": """
+counters:
+  c_{n}:
+    count_events: cnt_{n}
+    count_complete_value: 3
+    start_enabled: false
+    enable_events:
+      arm_{n}: 250ms
+    disable_events:
+      dis_{n}: 500ms
+    reset_events:
+      rst_{n}: 1s
+    restart_events: rsn_{n}
+accruals:
+  a_{n}:
+    events:
+      - x_{n}
+      - y_{n}
+    reset_events:
+      rst_{n}: 375ms
+""",
+    "gamedly": """
+shots:
+  sh_{n}:
+    switch: s_shot
+    advance_events:
+      arm_{n}: 250ms
+    reset_events:
+      rst_{n}: 1s
+    restart_events:
+      dis_{n}: 500ms
+counters:
+  c_{n}:
+    count_events: cnt_{n}
+    count_complete_value: 2
+    reset_events:
+      rsn_{n}: 125ms
+""",
     "gamey": """
 shots:
   sh_{n}:
@@ -139,7 +181,11 @@ POOL = [
     ("m2", 200, False, False, "plain"), ("m2", 100, False, False, "dev"), ("m2", 200, False, True, "dev2"),
     ("m2", 300, True, False, "plain"), ("m2", 200, True, True, "gamey"),
     ("m3", 200, False, False, "dev2"), ("m3", 400, False, False, "plain"), ("m3", 100, True, False, "gamey"),
+    # mode devices whose control events carry a delay (dict form): the pending call must die with the mode
+    ("m1", 200, False, False, "dly"), ("m2", 300, False, True, "dly"), ("m3", 100, False, False, "dly"),
+    ("m1", 250, True, False, "gamedly"), ("m2", 150, True, False, "gamedly"),
 ]
+DELAYED_CTL = {"dly": ["arm_", "dis_", "rst_"], "gamedly": ["arm_", "rst_", "dis_", "rsn_"]}
 
 
 def mode_yaml(name, prio, game_mode, wait, flavour):
@@ -214,6 +260,24 @@ def _install():
                 return
         lst.append(self)
     DM.__init__ = init
+    o_add, o_fire = DM.add, DM._process_delay_callback
+
+    def add(self, ms, callback, name=None, **kwargs):
+        name = o_add(self, ms, callback, name, **kwargs)
+        r = Rec.cur
+        md = kwargs.get("mode")
+        if r is not None and md is not None and getattr(md, "name", None) in r.names:
+            # the delayed control-event path (Mode._control_event_handler), on whichever manager it was scheduled
+            r.ctl_added(self, name, md.name, callback)
+        return name
+
+    def fire(self, name, callback, **kwargs):
+        r = Rec.cur
+        if r is not None:
+            r.ctl_fired(self, name, callback)
+        return o_fire(self, name, callback, **kwargs)
+    DM.add = add
+    DM._process_delay_callback = fire
 
 
 def cbname(cb):
@@ -252,7 +316,11 @@ def dump_dl(machine):
     for i, dm in enumerate(getattr(machine, "_c07_dms", [])):
         for name, ent in dm.delays.items():
             cb = ent[1]        # (handle, callback) or (handle, callback, kwargs)
-            if cbname(cb) != "QueuedEvent.clear":       # the harness' own "clear later" timers
+            r = Rec.cur
+            u = r.ctl.get((id(dm), name)) if r is not None else None
+            if u is not None:
+                out.append((i, "c07dl%d" % u))      # a delayed control-event call: an owned delay of its mode (model: adddl)
+            elif cbname(cb) != "QueuedEvent.clear":       # the harness' own "clear later" timers
                 out.append((i, cbname(cb)))
     return sorted(out)
 
@@ -292,6 +360,7 @@ class Real:
         self.violations = []
         self.snaps = {}
         self.user = {}        # uid -> (kind, mode)
+        self.ctl = {}         # (id(delay manager), delay name) -> uid of a delayed control-event call
         self.fired = []
         self.hook_runs = {}
         self.restarted = None
@@ -318,6 +387,10 @@ class Real:
             self.pend_cb[mode.name] += 1
         elif name == "_mode_stopped_callback":
             self.pend_cb[mode.name] -= 1
+            if self.mode_state(mode.name) == "idle" and not self.violations:
+                left = self.pending_ctl(mode.name)
+                if left:
+                    self.violations.append(("control-delay-pending-after-stopped", {"mode": mode.name, "pending": left[:4]}))
         self.check_active_list("after " + name)
         if self.calib:
             self.snaps.setdefault((mode.name, name), self.dumps())
@@ -334,6 +407,32 @@ class Real:
         # inside the active setter (between the flag and the list update) nothing of ours runs, so this must hold
         if act != exp and not self.violations:
             self.violations.append(("active-list", {"where": where, "active_modes": act, "expected": exp}))
+
+    def ctl_added(self, dm, name, m, callback):
+        self.uid += 1
+        u = self.uid
+        self.user[u] = ("ctl", m)
+        self.ctl[(id(dm), name)] = u
+        self.L.append(("user", "adddl", m, u))
+        self.L.append(("ctl", m, cbname(callback), "mode" if dm is self.machine.modes[m].delay else "other-manager"))
+
+    def ctl_fired(self, dm, name, callback):
+        u = self.ctl.pop((id(dm), name), None)
+        if u is not None:
+            m = self.user[u][1]
+            self.L.append(("user", "firedl", m, u))
+            self.fired.append(("ctl", m, cbname(callback), self.mode_state(m)))
+
+    def pending_ctl(self, m):
+        """delays scheduled through mode m's control-event path that are still pending, on ANY delay manager"""
+        out = []
+        for i, dm in enumerate(getattr(self.machine, "_c07_dms", [])):
+            for name, ent in dm.delays.items():
+                kw = ent[2] if len(ent) > 2 else {}
+                if (id(dm), name) in self.ctl and self.user[self.ctl[(id(dm), name)]][1] == m or \
+                        getattr(kw.get("mode"), "name", None) == m:
+                    out.append((i, cbname(ent[1])))
+        return out
 
     def dumps(self):
         return {"bus": dump_bus(self.machine), "sw": dump_sw(self.machine), "dl": dump_dl(self.machine)}
@@ -558,7 +657,7 @@ def oracle0(case, real, crash):
     # clause 3: nothing left behind
     for kind, m, u, st in real.fired:
         if st == "idle":
-            return "fired-after-stop:" + {"dl": "delay", "h": "handler", "sw": "switch-handler"}[kind], \
+            return "fired-after-stop:" + {"dl": "delay", "h": "handler", "sw": "switch-handler", "ctl": "control-event"}[kind], \
                 {"mode": m, "what": kind, "id": u}
     for e in L:
         if e[0] == "q" and not any(st[0] or st[1] or st[2] for st in e[1].values()):
@@ -652,6 +751,24 @@ def gen_case(r):
             ops.append(["ballend"])
         else:
             ops.append(["hitsw"])
+    ctl = [(m, pre) for m in names for pre in DELAYED_CTL.get(chosen[m][3], [])]
+    if ctl:
+        # post delayed control events while the mode is up, at grid instants shortly before a stop (and some at random)
+        for _ in range(r.choice([1, 2, 3])):
+            m, pre = r.choice(ctl)
+            burst = [["ev", "start_" + m], ["adv", r.choice([1, 2])], ["ev", pre + m]]
+            if r.random() < 0.5:
+                burst.append(["ev", r.choice(ctl)[1] + m])
+            gap = r.choice([0, 0, 1, 2, 3])
+            if gap:
+                burst.append(["adv", gap])
+            burst.append(r.choice([["stop", m], ["ev", "stop_" + m]] + ([["ballend"]] if chosen[m][1] else [])))
+            burst.append(["adv", r.choice([1, 4, 12])])
+            at = r.randint(0, len(ops))
+            ops[at:at] = burst
+        for _ in range(r.choice([0, 1, 2])):
+            m, pre = r.choice(ctl)
+            ops.insert(r.randint(0, len(ops)), ["ev", pre + m])
     for o in ops:
         if o[0] in ("addh", "addsw"):
             del o[2:]
@@ -857,10 +974,14 @@ def one_case(ctx, model, case, sample=True):
         for e in real.L:
             if e[0] == "call":
                 ctx.count("call_" + e[1])
+            elif e[0] == "ctl":
+                ctx.count("delayed_control_call_scheduled")
             elif e[0] in ("hook", "hold", "user"):
                 ctx.count(e[0] if e[0] != "user" else "user_" + e[1])
             elif e[0] == "post" and e[2] == "stopped":
                 ctx.count("cycles")
+        ctx.count("delayed_control_call_fired", sum(1 for f in real.fired if f[0] == "ctl"))
+        ctx.count("delayed_control_call_died_with_mode", sum(1 for e in real.L if e[0] == "ctl") - sum(1 for f in real.fired if f[0] == "ctl"))
         if case["game"] and cycles_done(real) == 0:
             ctx.count("vacuous_no_cycle")
     res = oracle(case, real, crash)
@@ -916,6 +1037,13 @@ def corpus():
     c.append({"kind": "modes", "game": False, "modes": {"m1": [200, False, False, "timeout"]}, "hooks": [],
               "ops": [["start", "m1", None], ["adv", 2], ["ev", "cnt_m1"], ["adv", 2], ["stop", "m1"], ["adv", 30],
                       ["start", "m1", None], ["ev", "cnt_m1"], ["adv", 30], ["ev", "cnt_m1"], ["stop", "m1"], ["adv", 30]]})
+    # a delayed control event (dict form) posted shortly before the stop: the pending call must die with the mode, on
+    # whichever delay manager it was scheduled; a second cycle lets one elapse while the mode is still up
+    c.append({"kind": "modes", "game": False, "modes": {"m1": [200, False, False, "dly"]}, "hooks": [],
+              "ops": [["start", "m1", None], ["adv", 2], ["ev", "arm_m1"], ["ev", "rst_m1"], ["adv", 1], ["stop", "m1"], ["adv", 12],
+                      ["ev", "start_m1"], ["ev", "arm_m1"], ["adv", 4], ["ev", "dis_m1"], ["ev", "stop_m1"], ["adv", 12]]})
+    c.append({"kind": "modes", "game": True, "modes": {"m1": [250, True, False, "gamedly"]}, "hooks": [],
+              "ops": [["ev", "start_m1"], ["adv", 2], ["ev", "arm_m1"], ["ev", "rst_m1"], ["adv", 1], ["ballend"], ["adv", 12]]})
     # use_wait_queue mode started by a queue event, stopping held open, a second mode overlapping at the same priority
     c.append({"kind": "modes", "game": False, "modes": {"m1": [200, False, True, "plain"], "m2": [200, False, False, "plain"]},
               "hooks": [{"mode": "m1", "phase": "stopping", "prio": 1, "acts": [["wait", 5]]},
@@ -929,7 +1057,7 @@ def run(ctx):
     try:
         for case in corpus():
             one_case(ctx, model, case)
-        for i in range(ctx.n(700, 9000)):
+        for i in range(ctx.n(600, 9000)):
             one_case(ctx, model, gen_case(ctx.rng("case", i)))
             if len([f for f in ctx.failures if f["signature"] not in KNOWN_SIGS]) >= 3:
                 break
